@@ -9,6 +9,8 @@ import CifModel.Spec.DataModel
       SOp.addPkt   = Loop.specAddPacket          (cif_loop_add_packet on the loop being filled, packet = names ↦ values)
       SOp.mkBlock  = specCreateBlock             (cif_create_block, code not yet in use)
       SOp.mkFrame  = Container.specCreateFrame   (cif_container_create_frame, code not yet in use in that container)
+      SOp.mkLoop   = Container.specCreateLoop    (cif_container_create_loop, category NULL, names valid / absent / distinct)
+      SOp.prune    = Container.specPrune         (cif_container_prune)
 
   so that a parse is, on the documented data model, the composition of the documented effects of the API calls it makes
   (Lemmas/ParserTrace.parse_replay).  The interesting one is set_value: the parser model writes the FIRST matching cell of each
@@ -253,5 +255,33 @@ theorem mkFrame_spec (o : Opts) (c : Container) (code : Str) (hfresh : c.frames.
     c.specCreateFrame o.norm (o.norm code) code true = .ok (Container.mk c.code (c.frames ++ [Container.mk code [] []]) c.loops) := by
   have : c.frames.any (fun f => o.norm f.code == o.norm code) = false := hfresh
   simp [Container.specCreateFrame, this]
+
+/-! ### create_loop, prune (group gX: the two calls that had no function in Spec/DataModel) -/
+
+theorem specKeysDistinct_hasDup : ∀ ks : List Str, specKeysDistinct ks = !hasDup ks
+  | [] => rfl
+  | k :: ks => by simp [specKeysDistinct, hasDup, specKeysDistinct_hasDup ks]
+
+theorem specHasItem_hasItem (norm : Str → Str) (c : Container) (k : Str) : c.specHasItem norm k = hasItem norm c k := rfl
+
+/-- **cif_container_create_loop** (category NULL) with names that are valid, absent from the container and pairwise distinct — what
+    `SOp.docOk` records for every `mkLoop` of a trace: the documented function succeeds and adds exactly the empty loop the parser
+    model adds -/
+theorem mkLoop_spec (o : Opts) (c : Container) (names : List Str) (hne : names ≠ [])
+    (hv : (names.any fun n => !isValidName true n) = false)
+    (hcl : ((names.any fun n => hasItem o.norm c (o.norm n)) || hasDup (names.map o.norm)) = false) :
+    c.specCreateLoop o.norm none names (isValidName true)
+      = .ok (Container.mk c.code c.frames (c.loops ++ [{ category := none, names := names, packets := [] }])) := by
+  have h1 : names.isEmpty = false := by cases names with | nil => exact absurd rfl hne | cons _ _ => rfl
+  have h3 : (names.any (fun n => c.specHasItem o.norm (o.norm n)) || !specKeysDistinct (names.map o.norm)) = false := by
+    rw [specKeysDistinct_hasDup, Bool.not_not]
+    exact hcl
+  unfold Container.specCreateLoop
+  rw [h1, hv, h3]
+  rfl
+
+/-- **cif_container_prune** -/
+theorem prune_spec' (c : Container) : pruneC c = c.specPrune := by
+  cases c; rfl
 
 end CifModel.Model.Parser
